@@ -38,7 +38,7 @@ type c04Case struct {
 
 var c04Zones = []string{"UTC", "Europe/Berlin", "America/New_York", "Asia/Kolkata", "Pacific/Kiritimati", "Pacific/Pago_Pago", "Australia/Lord_Howe", "America/Havana"}
 
-var c04QuickYears = []int{1950, 1999, 2000, 2024, 2049, 2050, 2100, 2200}
+var c04QuickYears = []int{1950, 1999, 2000, 2024, 2049, 2050, 2100, 2200, 2262, 2263, 2400, 9998}
 
 func c04Enumerate(tier string, yield func(any)) {
 	if tier == "thorough" {
@@ -329,8 +329,8 @@ func init() {
 	register(&engine.Check{
 		ID:          "C04",
 		Level:       "exploration",
-		Rule:        "every calendar date of the years {1950,1999,2000,2024,2049,2050,2100,2200} (quick) / of every year 1950..2200 in two zones (thorough) as `from` (with duration 1y) and as `until`, in 8 local time zones (UTC, Berlin, New York, Kolkata, Kiritimati +14, Pago Pago -11, Lord Howe 30-minute DST, Havana DST at midnight); duration grid y{-,0,1,5,25,100,010,08} x m{-,0,1,11,12,13,25,09,0012} x d{-,0,1,28,31,365,366,1000,0030,08} (leading zeros are decimal) from 12 month-end / leap-day start dates and from the run time; all 8 x (1+8) presence combinations of from/until/duration in certificate and profile. Each through a whole gopki run with an existing P-224 key; oracle = own proleptic-Gregorian arithmetic for local midnight and calendar addition, UTCTime/GeneralizedTime by year, inheritance rule. non-trivial = distinct (zone, block, profile block); and four relative shapes (duration only, nothing, profile duration, until only) for an entity issued after its root on a filesystem whose writes take 1.1 s, so that the reading of the configuration and the building of the certificate fall into different seconds (notAfter must still be notBefore plus the duration exactly); and 14 edits of the validity block (own and inherited; until, duration, from+until, from+duration, shape changes) after a first run, followed by a default run whose certificate must carry the new period",
-		Bound:       map[string]string{"dates": "quick 8 years x 8 zones; thorough 1950-2200 x 2 zones + 8 years x 6 zones"},
+		Rule:        "every calendar date of the years {1950,1999,2000,2024,2049,2050,2100,2200,2262,2263,2400,9998} (quick) / of every year 1950..2200 in two zones (thorough) as `from` (with duration 1y) and as `until`, in 8 local time zones (UTC, Berlin, New York, Kolkata, Kiritimati +14, Pago Pago -11, Lord Howe 30-minute DST, Havana DST at midnight); duration grid y{-,0,1,5,25,100,010,08} x m{-,0,1,11,12,13,25,09,0012} x d{-,0,1,28,31,365,366,1000,0030,08} (leading zeros are decimal) from 12 month-end / leap-day start dates and from the run time; all 8 x (1+8) presence combinations of from/until/duration in certificate and profile. Each through a whole gopki run with an existing P-224 key; oracle = own proleptic-Gregorian arithmetic for local midnight and calendar addition, UTCTime/GeneralizedTime by year, inheritance rule. non-trivial = distinct (zone, block, profile block); and four relative shapes (duration only, nothing, profile duration, until only) for an entity issued after its root on a filesystem whose writes take 1.1 s, so that the reading of the configuration and the building of the certificate fall into different seconds (notAfter must still be notBefore plus the duration exactly); and 14 edits of the validity block (own and inherited; until, duration, from+until, from+duration, shape changes) after a first run, followed by a default run whose certificate must carry the new period",
+		Bound:       map[string]string{"dates": "quick 12 years x 8 zones; thorough 1950-2200 x 2 zones + 12 years x 6 zones"},
 		Assumptions: []string{"the zone offset tables of Go's embedded tzdata are trusted; in a DST gap/overlap at local midnight either offset is accepted", "without `from`, notBefore must lie within the measured run interval +-1 s", "calendar-invalid dates are only required not to crash (C20)"},
 		Budget:      budgets(quickBudget, thoroughBudget),
 		Enumerate:   c04Enumerate,
